@@ -41,7 +41,8 @@ def rand_blocks(rnd, n=None, fault=True):
         elif k == 'of':
             conf.update(sd=rnd.random() < 0.6)
         elif k == 'pplain':
-            conf.update(sync=rnd.random() < 0.7)     # (persistent: its state is saved before the clean-up)
+            conf.update(sync=rnd.random() < 0.7,     # (persistent: its state is saved before the clean-up)
+                        readerr=rnd.random() < 0.3)  # (its saved record cannot be read)
         elif k == 'vp':
             conf.update(idur=rnd.choice([0, 2, 6]), itmo=rnd.choice([4, 8]))
         elif k == 'ia':
